@@ -2,7 +2,12 @@
 
 TLC enumerates spec/LsPositions.tla: document class x position class(es) x position/range-taking request,
 with the concrete (line, character) of every class computed from the document's line/token table.  Every
-cell is sent to the in-process session (the real dispatch + handlers) after didOpen of the document; the
+position-like parameter of a request is a slot drawn from the classes independently: the point, both ends of
+a range, BOTH ranges of a two-range request (inlineValue: range / context.stoppedLocation, codeAction: range /
+context.diagnostics[].range, callHierarchy items: range / selectionRange), every list of 0..3 positions of
+selectionRange, plus the string that accompanies a point (rename: newName, onTypeFormatting: ch).  Opaque
+`data` members (call hierarchy item, code lens) are the ones the server itself handed out for the document
+(mined in the same run), so the handlers behind them are reached.  Every cell is sent to the in-process session (the real dispatch + handlers) after didOpen of the document; the
 recorded stream is judged by spec/LsProtocolTrace.tla: the request must be dispatched, its task must
 finish, exactly one response, and that response must be a result or null (never an error, never nothing).
 """
@@ -16,6 +21,35 @@ import vlib
 import _lsproto as L
 
 BATCH = 12
+
+
+def mine_items(ctx, docs, text_of):
+    """PM: the opaque `data` of a call hierarchy item / a code lens the server hands out for each document"""
+    runs = []
+    for d in docs:
+        steps = [L.open_step(text=text_of[d["cls"]])]
+        rid = 0
+        for tok in d["toks"][:40]:
+            rid += 1
+            steps.append({"op": "req", "id": rid, "method": "textDocument/prepareCallHierarchy",
+                          "params": {"textDocument": {"uri": L.DOC_URI}, "position": {"line": tok[0], "character": tok[1]}}})
+        steps.append({"op": "req", "id": 1000, "method": "textDocument/codeLens", "params": {"textDocument": {"uri": L.DOC_URI}}})
+        runs.append({"run": "mine|" + d["cls"], "sched": False, "steps": steps})
+    out = L.play_inprocess(ctx, runs, results=True, tag="mine")
+    mined = {}
+    for r in out:
+        doc = r["run"].split("|", 1)[1]
+        m = {"callHierarchy": None, "codeLens": None}
+        for e in r["events"]:
+            if e["ev"] != "ssend" or e.get("kind") != "resp" or not e.get("ok"):
+                continue
+            res = e.get("result")
+            if isinstance(res, list) and res and isinstance(res[0], dict) and res[0].get("data") is not None:
+                kind = "codeLens" if e["id"] == 1000 else "callHierarchy"
+                if m[kind] is None:
+                    m[kind] = res[0]["data"]
+        mined[doc] = m
+    return mined
 
 
 def run(ctx):
@@ -33,26 +67,23 @@ def run(ctx):
     cells = [c for t, c in res.json if t == "CELL"]
     if len(cells) != res.distinct:
         raise vlib.ToolError("cell extraction lost cells: %d printed, %d states" % (len(cells), res.distinct))
-    # one concrete request per distinct (document, request, positions); remember every class it stands for
+    # one concrete request per distinct (document, request, positions, string class); remember the classes it stands for
     uniq = {}
     for c in cells:
-        k = (c["doc"], c["req"], json.dumps(c["pos"]))
-        u = uniq.setdefault(k, {"doc": c["doc"], "req": c["req"], "pos": c["pos"], "classes": set(), "denotes": c["denotes"]})
-        u["classes"].add("+".join(c["pcs"]))
-    reqs = sorted(uniq.values(), key=lambda u: (u["doc"], u["req"], json.dumps(u["pos"])))
+        k = (c["doc"], c["req"], json.dumps(c["pos"]), c["opt"])
+        u = uniq.setdefault(k, dict(c, classes=set()))
+        u["classes"].add("+".join(c["pcs"]) if c["pcs"] else "(empty list)")
+    reqs = sorted(uniq.values(), key=lambda u: (u["doc"], u["req"], json.dumps(u["pos"]), u["opt"]))
     ctx.note("matrix_cells", len(cells))
     ctx.note("distinct_concrete_requests", len(reqs))
+    by_shape = {}
+    for u in reqs:
+        by_shape[len(u["pos"])] = by_shape.get(len(u["pos"]), 0) + 1
+    ctx.note("requests_by_number_of_positions", {str(k): v for k, v in sorted(by_shape.items())})
     rnd = random.Random(ctx.seed)
     sampled = False
-    if ctx.quick:
-        points = [u for u in reqs if len(u["pos"]) == 1]
-        ranges = [u for u in reqs if len(u["pos"]) == 2]
-        if len(ranges) > 1500:
-            ranges = rnd.sample(ranges, 1500)
-            sampled = True
-        reqs = points + ranges
-        reqs.sort(key=lambda u: (u["doc"], u["req"], json.dumps(u["pos"])))
     vlib.build(["vh-ls"])
+    mined = mine_items(ctx, docs, text_of)
     runs, infos = [], {}
     by_doc = {}
     for u in reqs:
@@ -65,7 +96,7 @@ def run(ctx):
             for j, u in enumerate(us[b:b + BATCH]):
                 rid = j + 1
                 steps.append({"op": "req", "id": rid, "method": u["req"],
-                              "params": L.position_request(u["req"], L.DOC_URI, u["pos"])})
+                              "params": L.cell_request(u, L.DOC_URI, mined.get(doc))})
                 info[rid] = {"cls": "valid", "method": u["req"], "cell": u}
             runs.append({"run": key, "sched": False, "steps": steps})
             infos[key] = info
@@ -100,7 +131,7 @@ def run(ctx):
                 u = info[rid]["cell"]
                 classes = sorted(u["classes"])
                 beyond = not all(u["denotes"])
-                ctx.count((u["doc"], u["req"], json.dumps(u["pos"])), nontrivial=u["doc"] != "empty")
+                ctx.count((u["doc"], u["req"], json.dumps(u["pos"]), u["opt"]), nontrivial=u["doc"] != "empty")
                 ok = i["n"] == 1 and i["r"] == ["ok"] and i["how"] == "finish"
                 if ok:
                     if answers.get(rid, {}).get("null"):
@@ -113,16 +144,25 @@ def run(ctx):
                 else:
                     problem = "error-response" + (i["r"][0][3:] if i["r"] else "")
                 sig = "C25/%s/%s/%s" % (u["req"], problem, "beyond" if beyond else "in-document")
+                if u["rel"] != "-":
+                    sig += "/" + u["rel"]
+                if u["opt"] not in ("-", "ident", "newline"):
+                    sig += "/" + u["opt"]
                 ctx.violation(sig, {"document_class": u["doc"], "document": text_of[u["doc"]], "request": u["req"],
+                                    "params": L.cell_request(u, L.DOC_URI, mined.get(u["doc"])),
+                                    "parameters": u["slots"], "string_class": u["opt"], "relation_of_ranges": u["rel"],
                                     "positions": [L.lsp_pos(p) for p in u["pos"]], "position_classes": classes,
                                     "responses": i["r"], "explanation": i["how"],
                                     "answer": {k: v for k, v in answers.get(rid, {}).items() if k != "result"},
                                     "panics_in_run": panics[:4]})
     for u in rnd.sample(reqs, min(5, len(reqs))):
-        ctx.sample({"document_class": u["doc"], "request": u["req"], "positions": u["pos"], "classes": sorted(u["classes"])})
+        ctx.sample({"document_class": u["doc"], "request": u["req"], "parameters": u["slots"], "positions": u["pos"],
+                    "classes": sorted(u["classes"]), "string_class": u["opt"]})
     ctx.note("null_results", nulls)
     ctx.cov["exhaustive"] = not sampled
-    ctx.rule("distinct (document, request, concrete positions) triples from the TLC-enumerated matrix 6 document classes x "
-             "8 position classes (pairs for ranges) x 16 requests; non-trivial = non-empty document")
+    ctx.note("mined_data", {d: sorted(k for k, v in m.items() if v is not None) for d, m in mined.items()})
+    ctx.rule("distinct (document, request, concrete positions, string class) tuples from the TLC-enumerated matrix 6 document "
+             "classes x 9 position classes per position-like parameter (1, 2 or 4 per request, lists of 0..3) x 22 requests; "
+             "non-trivial = non-empty document")
     ctx.assume("the six fixed small documents stand for their classes; token tables come from a regex tokenizer in the "
                "driver (only used to pick positions, not to judge)")
